@@ -101,7 +101,7 @@ pub fn check_placement(env: &Env, ctx: &Ctx, p: &Placement, defaults: &BTreeMap<
     if obs.is_empty() {
         return (out, obs);
     }
-    let default = defaults.get(&p.probe).cloned().unwrap_or_default();
+    let default = defaults.get(&default_key(p)).cloned().unwrap_or_default();
     let acc = acceptable(p, probe, &default, table);
     let o0 = &obs[0];
     if o0.exit != Some(0) {
@@ -184,9 +184,13 @@ fn calibrate_defaults(env: &Env, ctx: &Ctx) -> BTreeMap<String, String> {
         let mut p = Placement::default();
         p.probe = probe.name.to_string();
         p.no_gitconfig = true;
-        if let Some(o) = observe(env, ctx, &p, 1) {
-            if let Some(v) = o.shown {
-                m.insert(probe.name.to_string(), v);
+        for extra in extra_cli_variants(probe.name) {
+            let mut q = p.clone();
+            q.extra_cli = extra;
+            if let Some(o) = observe(env, ctx, &q, 1) {
+                if let Some(v) = o.shown {
+                    m.insert(default_key(&q), v);
+                }
             }
         }
     }
@@ -255,7 +259,7 @@ pub fn main_c13(env: &Env, tier: &str, seed: u64, replay: Option<&str>) -> i32 {
     let t0 = Instant::now();
     let ctx0 = Ctx { worker: 0, dir: env.scratch.join("w0"), stop: &std::sync::atomic::AtomicBool::new(false) };
     let defaults = calibrate_defaults(env, &ctx0);
-    if defaults.len() != PROBES.len() {
+    if defaults.len() < PROBES.len() {
         eprintln!("HARNESS-ERROR: could not read defaults for all probe options: {:?}", defaults);
         return 2;
     }
@@ -326,7 +330,7 @@ pub fn main_c13(env: &Env, tier: &str, seed: u64, replay: Option<&str>) -> i32 {
             }
         }
         let probe = PROBES.iter().find(|x| x.name == p.probe).unwrap();
-        if acceptable(p, probe, &defaults[&p.probe], &table).len() > 1 {
+        if acceptable(p, probe, &defaults[&default_key(p)], &table).len() > 1 {
             unordered_cases += 1;
         }
         for v in vs {
@@ -374,7 +378,7 @@ pub fn main_c13(env: &Env, tier: &str, seed: u64, replay: Option<&str>) -> i32 {
     ev.violations = reported.len() as u64;
     ev.samples = placements.iter().step_by((placements.len() / 5).max(1)).take(5).map(|p| {
         let spec = to_spec(p, 1);
-        json!({"probe": p.probe, "sources": p.sources, "args": spec.args, "env": spec.env, "gitconfig": gitconfig_text(p), "model_accepts": acceptable(p, PROBES.iter().find(|x| x.name == p.probe).unwrap(), &defaults[&p.probe], &table)})
+        json!({"probe": p.probe, "sources": p.sources, "args": spec.args, "env": spec.env, "gitconfig": gitconfig_text(p), "model_accepts": acceptable(p, PROBES.iter().find(|x| x.name == p.probe).unwrap(), &defaults[&default_key(p)], &table)})
     }).collect();
     ev.extra.insert("engine".into(), json!("E1-proc: real delta binary under LD_PRELOAD shim (getrandom stream = hash seed, clock pinned), hermetic HOME/XDG/PATH/cwd"));
     ev.extra.insert("real_vs_stub".into(), json!({"real": ["all of delta incl. clap, git2 config parsing"], "stub": ["none needed (--show-config starts no peers)"]}));
